@@ -119,6 +119,12 @@ def RamseyNumber(s, k, N, formula_class=CNF):
 def _vdw_ap_generator(N, k):
     '''Generates arithmetic progressions of length k in 1...N'''
 
+    # a progression of length 1 is a single number (and has no gap)
+    if k == 1:
+        for i in range(1, N + 1):
+            yield [i]
+        return
+
     # the largest gap d must be such that
     # 1+ d*(k-1) <= N
     # so d <= (N-1)/(k-1)
